@@ -102,6 +102,18 @@ func c05Programs(thorough bool) []c05Prog {
 		p("generic-two-instantiations", "package main\n\nlet pair a b =\n  (a, b)\n\nlet idf x = x\n\nlet use () =\n  let p = pair 1 \"s\"\n  let q = pair \"t\" true\n  let r = idf p\n  (r, idf q)\n"),
 		p("union-constructors-and-records", "package main\n\ntype R = {N: int; S: string}\ntype U =\n  | Rr of R\n  | Ii of int\n  | No\n\nlet f (u:U) =\n  match u with\n  | Rr r -> r.N\n  | Ii i -> i\n  | No -> 0\n\nlet g () =\n  [Rr {N=1; S=\"a\"}; Ii 2; No]\n"),
 		p("type-and-group", "package main\n\ntype A =\n  | Ab of B\n  | Ac of C\n  | An\nand B = {Bn: int; Bc: []C}\nand C = {Cn: string}\n\nlet f (a:A) =\n  match a with\n  | Ab b -> b.Bn\n  | Ac c -> 1\n  | An -> 2\n"),
+		// degenerate repetitions (after seed C05h): whatever fc makes of them - reject, emit twice, keep one - it must
+		// make the same of them every time; "keep one per key" through a dictionary is where enumeration order gets in
+		p("match-repeated-rule", "package main\n\ntype U =\n  | A of int\n  | B\n  | C of string\n\nlet f (u:U) =\n  match u with\n  | A x -> x\n  | B -> 2\n  | A y -> y + 1\n  | C _ -> 3\n"),
+		p("match-repeated-rule-nested", "package main\n\ntype U =\n  | A of int\n  | B\n  | C of string\n\nlet f (u:U) (v:U) =\n  match u with\n  | B ->\n    match v with\n    | A k -> k\n    | C _ -> 1\n    | A k -> k + 1\n    | B -> 4\n  | A x -> x\n  | B -> 2\n  | C _ -> 3\n"),
+		p("match-repeated-rule-and-default", "package main\n\ntype U =\n  | A\n  | B\n  | C\n  | D\n\nlet f (u:U) =\n  match u with\n  | D -> 1\n  | A -> 2\n  | D -> 3\n  | A -> 4\n  | _ -> 0\n"),
+		p("string-match-repeated-literal", "package main\n\nlet f (s:string) =\n  match s with\n  | \"a\" -> 1\n  | \"b\" -> 2\n  | \"a\" -> 3\n  | _ -> 0\n"),
+		p("record-literal-repeated-field", "package main\n\ntype R = {A: int; B: int}\n\nlet f () =\n  {A=1; B=2; A=3}\n"),
+		p("function-defined-twice", "package main\n\nlet f (a:int) =\n  a + 1\n\nlet g () =\n  f 1\n\nlet f (a:int) =\n  a + 2\n\nlet h () =\n  f 2\n"),
+		p("union-case-declared-twice", "package main\n\ntype U =\n  | A of int\n  | B\n  | A of string\n\nlet f (u:U) =\n  match u with\n  | A _ -> 1\n  | B -> 2\n"),
+		p("record-field-declared-twice", "package main\n\ntype R = {A: int; B: string; A: string}\n\nlet f (r:R) =\n  r.A\n"),
+		p("package-info-entry-twice", "package main\n\npackage_info ext =\n  type H\n  let Hd: ()->H\n  let Use: H->int\n  let Hd: int->H\n  type H\n\nlet f () =\n  ext.Use (ext.Hd ())\n"),
+		p("type-declared-twice", "package main\n\ntype R = {A: int}\ntype R = {A: int; B: int}\n\nlet f () =\n  {A=1}\n"),
 		p("syntax-error", "package main\n\nlet f ( =\n  1\n"),
 		p("unknown-variable", "package main\n\ntype R = {A: int}\ntype S = {A: int}\n\nlet f () =\n  nosuch {A=1}\n"),
 		p("record-literal-no-match", "package main\n\ntype R = {A: int}\ntype S = {B: int}\n\nlet f () =\n  {C=1}\n"),
